@@ -436,7 +436,23 @@ func runC17fn(p *Plan, keep bool) *Outcome {
 
 func init() {
 	register(&Profile{Name: "c17", Prop: "C17", Generate: genC17,
-		Check:      func(w *World, reason string) []Violation { return w.checkC17() },
+		Setup: func(w *World) {
+			if w.Plan.Scenario != "meta-rows-bad" {
+				return
+			}
+			// C08 over stale meta data: the newest region wins, whatever meta says
+			w.Env.Invariant = func() error {
+				if w.Env.Step%8 != 0 {
+					return nil
+				}
+				if err := w.NewestWins(); err != nil {
+					w.pending = append(w.pending, w.viol("C08", "older-replaced-newer", "%v", err))
+					return errStop
+				}
+				return nil
+			}
+		},
+		Check:      func(w *World, reason string) []Violation { return append(w.pending, w.checkC17()...) },
 		Nontrivial: func(w *World) bool { return w.Env.Stats.FaultsFired > 0 && len(w.Env.C.Execs) > 5 },
 	})
 	register(&Profile{Name: "c17fn", Prop: "C17", Custom: runC17fn,
